@@ -1,0 +1,6 @@
+//! Handler hooks: the real handler on a virtual wire and a toolkit for a scripted peer.
+pub use crate::handler::verif_hooks::*;
+pub use crate::handler::{HandlerIn, HandlerOut, WhoAreYouRef};
+pub use crate::node_info::{NodeAddress, NodeContact};
+pub use crate::packet::{IdNonce, MessageNonce, PacketKind};
+pub use crate::rpc::{Message, Request, RequestBody, RequestId, Response, ResponseBody};
